@@ -206,11 +206,114 @@ def not_not(source):
     return ast.unparse(tree) + '\n'
 
 
+class _Messages(ast.NodeTransformer):
+    """ Log and exception texts get a prefix (format placeholders kept). """
+    LEVELS = ('debug', 'info', 'warning', 'error', 'critical', 'exception')
+
+    def visit_Call(self, node):
+        self.generic_visit(node)
+        f = node.func
+        is_log = isinstance(f, ast.Attribute) and f.attr in self.LEVELS
+        is_exc = isinstance(f, ast.Name) and (f.id.endswith('Error') or f.id.endswith('Exception'))
+        if (is_log or is_exc) and node.args and isinstance(node.args[0], ast.Constant) and isinstance(node.args[0].value, str):
+            node.args[0] = ast.copy_location(ast.Constant('[x] ' + node.args[0].value), node.args[0])
+        return node
+
+
+def messages(source):
+    tree = ast.parse(source)
+    _Messages().visit(tree)
+    return ast.unparse(tree) + '\n'
+
+
+class _AugExpand(ast.NodeTransformer):
+    def visit_AugAssign(self, node):
+        t = node.target
+        simple = isinstance(t, ast.Name) or (isinstance(t, ast.Attribute) and isinstance(t.value, ast.Name))
+        if not simple:
+            return node
+        load = ast.Name(t.id, ast.Load()) if isinstance(t, ast.Name) else ast.Attribute(ast.Name(t.value.id, ast.Load()), t.attr, ast.Load())
+        return ast.copy_location(ast.Assign([t], ast.BinOp(load, node.op, node.value)), node)
+
+
+def aug_expand(source):
+    """ "t op= v" -> "t = t op v" for plain names and one-level attributes (ints, bytes, flags, interval sets: same value;
+    lists are rebound instead of extended, which differs only through an alias - none of the rewritten sites has one). """
+    tree = ast.parse(source)
+    _AugExpand().visit(tree)
+    ast.fix_missing_locations(tree)
+    return ast.unparse(tree) + '\n'
+
+
+def _returns_value(func):
+    for n in ast.walk(func):
+        if isinstance(n, ast.Return) and n.value is not None and not (isinstance(n.value, ast.Constant) and n.value.value is None):
+            return True
+        if isinstance(n, (ast.Yield, ast.YieldFrom)):
+            return True
+    return False
+
+
+def guard_clauses(source):
+    """ A function that ends in "if c: BODY" (no else, no value returned anywhere) becomes "if not c: return" + BODY. """
+    tree = ast.parse(source)
+    for f in [n for n in ast.walk(tree) if isinstance(n, ast.FunctionDef)]:
+        if _returns_value(f) or not f.body:
+            continue
+        last = f.body[-1]
+        if isinstance(last, ast.If) and not last.orelse and len(f.body) > 1:
+            test = last.test.operand if isinstance(last.test, ast.UnaryOp) and isinstance(last.test.op, ast.Not) else ast.UnaryOp(ast.Not(), last.test)
+            guard = ast.If(test, [ast.Return(None)], [])
+            f.body = f.body[:-1] + [guard] + last.body
+    ast.fix_missing_locations(tree)
+    return ast.unparse(tree) + '\n'
+
+
+def nest_returns(source):
+    """ "if c: return" followed by REST, in a function that returns no value, at the top level of the function body
+    becomes "if not c: REST". """
+    tree = ast.parse(source)
+    for f in [n for n in ast.walk(tree) if isinstance(n, ast.FunctionDef)]:
+        if _returns_value(f):
+            continue
+        for ix in range(len(f.body) - 2, -1, -1):
+            st = f.body[ix]
+            if isinstance(st, ast.If) and not st.orelse and len(st.body) == 1 and isinstance(st.body[0], ast.Return) and f.body[ix + 1:]:
+                test = st.test.operand if isinstance(st.test, ast.UnaryOp) and isinstance(st.test.op, ast.Not) else ast.UnaryOp(ast.Not(), st.test)
+                f.body = f.body[:ix] + [ast.If(test, f.body[ix + 1:], [])]
+                break  # one per function keeps the result readable
+    ast.fix_missing_locations(tree)
+    return ast.unparse(tree) + '\n'
+
+
+def reorder_defs(source):
+    """ Methods of every class in reverse order (decorated property setters stay behind their getters: classes with
+    decorators that reference earlier names are left alone); class attributes first, as before. """
+    tree = ast.parse(source)
+    for c in [n for n in ast.walk(tree) if isinstance(n, ast.ClassDef)]:
+        funcs = [n for n in c.body if isinstance(n, ast.FunctionDef)]
+        if any(isinstance(d, ast.Attribute) and d.attr in ('setter', 'deleter', 'getter') for f in funcs for d in f.decorator_list):
+            continue
+        if len({f.name for f in funcs}) != len(funcs):
+            continue
+        # only reorder when every non-function statement precedes the first function (no class-level code uses methods)
+        first = next((i for i, n in enumerate(c.body) if isinstance(n, ast.FunctionDef)), None)
+        if first is None or any(not isinstance(n, ast.FunctionDef) for n in c.body[first:]):
+            continue
+        c.body = c.body[:first] + list(reversed(c.body[first:]))
+    return ast.unparse(tree) + '\n'
+
+
 TRANSFORMS = {
     'unparse': unparse,
     'rename_locals': rename_locals,
     'add_logging': add_logging,
     'not_not': not_not,
+    'messages': messages,
+    'aug_expand': aug_expand,
+    'guard_clauses': guard_clauses,
+    'nest_returns': nest_returns,
+    'reorder_defs': reorder_defs,
 }
 
 
